@@ -252,10 +252,14 @@ func symbol(value pr.NamedString) string {
 
 // Implement the algorithm for `type: repeating`.
 func repeating(symbols []pr.NamedString, value int) (string, bool) {
-	if len(symbols) == 0 {
+	L := len(symbols)
+	if L == 0 {
 		return "", false
 	}
-	return symbol(symbols[(value-1)%len(symbols)]), true
+	// mathematical modulo: value may be null or negative,
+	// and Go's % takes the sign of the dividend
+	index := ((value-1)%L + L) % L
+	return symbol(symbols[index]), true
 }
 
 // Implement the algorithm for `type: non-repeating`.
